@@ -319,8 +319,8 @@ theorem isLe_total (V : Valuation) (l r : BitVec 64) :
   rw [isLe_eq]
   split
   · rename_i hc; rw [val_short V l hc.1, val_short V r hc.2]; rfl
-  · simp only [denoteBool, denoteCall, slowSpec, SlowVal.negate, if_true]
-    congr 1; simp [Int.not_lt]
+  · simp [denoteBool, denoteCall, slowSpec, SlowVal.negate]
+    rw [← decide_not]; apply decide_eq_decide.2; omega
 
 theorem isGt_total (V : Valuation) (l r : BitVec 64) :
     denoteBool V (CPyTagged_IsGt l r) = .bool (decide (V.val l > V.val r)) := by
@@ -334,8 +334,8 @@ theorem isGe_total (V : Valuation) (l r : BitVec 64) :
   rw [isGe_eq]
   split
   · rename_i hc; rw [val_short V l hc.1, val_short V r hc.2]; rfl
-  · simp only [denoteBool, denoteCall, slowSpec, SlowVal.negate, if_true]
-    congr 1; simp [Int.not_lt]
+  · simp [denoteBool, denoteCall, slowSpec, SlowVal.negate]
+    rw [← decide_not]; apply decide_eq_decide.2; omega
 
 /-- comparisons of two short operands never leave the inline code and equal the `Int` comparison -/
 theorem compare_short (l r : BitVec 64) (hl : isShort l) (hr : isShort r) :
@@ -349,7 +349,7 @@ theorem compare_short (l r : BitVec 64) (hl : isShort l) (hr : isShort r) :
   have h2 := short_toInt r hr
   rw [isLt_eq, isLe_eq, isGt_eq, isGe_eq, isEq_eq, isNe_eq]
   simp only [hl, hr, and_self, if_true, beq_eq, bne_eq]
-  refine ⟨rfl, rfl, rfl, rfl, ?_, ?_⟩
+  refine ⟨trivial, trivial, trivial, trivial, ?_, ?_⟩
   · congr 1; apply decide_eq_decide.2; omega
   · congr 1; apply decide_eq_decide.2; omega
 
